@@ -124,6 +124,9 @@ package shell
 //@ at call Encrypt assert $1 == data
 //@ after call Encrypt let ct = $ret0
 //@ at call DataWriter.WriteStreamData assert $3 == ct && (len(data) <= 16356 ==> len($3) <= 16384) && $1 == ss.PeerID && $2 == ss.StreamID && $4 == flags
+//@ note C04 (endpoint, remote shell): the only bytes handed to the mesh are the output of Encrypt under the stream's key
+//@ at[C04] call DataWriter.WriteStreamData assert $3 == ct
+//@ census[C04] DataWriter.WriteStreamData in (*Handler).writeEncrypted
 
 //@ func (*Handler).pumpOutput
 //@ prop C07
@@ -179,3 +182,27 @@ package shell
 //@ ensures len(result) >= 1
 //@ ensures len(data) <= maxLen ==> len(result) == 1 && result[0] == data
 //@ ensures len(data) > maxLen && maxLen >= 2 && (data[0] == MsgStdin || data[0] == MsgStdout || data[0] == MsgStderr) ==> c07split == len(data) - 1 && forall k in 0..len(result): 2 <= len(result[k]) && len(result[k]) <= maxLen
+
+// ---- C03 (responder, remote shell): a zero initiator key is refused; one fresh pair; the key is derived
+// for (request id received, initiator public, own public, responder), stored in the stream entry, and the
+// own public key is what the caller gets back for the ACK ----
+
+//@ func (*Handler).HandleStreamOpen
+//@ prop C03
+//@ modifies *
+//@ after call crypto.GenerateEphemeralKeypair let c03priv = $ret0
+//@ after call crypto.GenerateEphemeralKeypair let c03pub = $ret1
+//@ after call crypto.GenerateEphemeralKeypair let c03genErr = $ret2
+//@ at call crypto.ComputeECDH assert c03genErr == nil && c03pub == pubOf(c03priv)
+//@ at call crypto.ComputeECDH assert $0 == c03priv && $1 == remoteEphemeralPub
+//@ after call crypto.ComputeECDH let c03secret = $ret0
+//@ after call crypto.ComputeECDH let c03dhErr = $ret1
+//@ at call crypto.DeriveSessionKey assert c03dhErr == nil && $0 == c03secret && c03secret == dh(c03priv, remoteEphemeralPub) && c03secret != zeros()
+//@ at call crypto.DeriveSessionKey assert $1 == requestID && $2 == remoteEphemeralPub && $3 == c03pub && $4 == false
+//@ after call crypto.DeriveSessionKey let c03key = $ret
+//@ at call Lock assert ss.sessionKey == c03key && c03key != nil && ss.RequestID == requestID
+//@ ensures remoteEphemeralPub == zeros() ==> result0 != 0
+//@ ensures result0 == 0 ==> result1 == c03pub && c03dhErr == nil
+
+//@ census[C03] crypto.DeriveSessionKey in (*Handler).HandleStreamOpen
+//@ census[C03] crypto.ComputeECDH in (*Handler).HandleStreamOpen
